@@ -114,7 +114,44 @@ def compare(defn, ref, got, prefs):
     return out
 
 
-def payload_set(defn, seed):
+def payload_set(defn, seed, deep=False):
+    if deep:
+        # thorough: also from the other bases, and two quantity fields off base at a time
+        seen = set()
+        for bname in ("mid", "max", "min", "ones"):
+            base = payloads.base_assignment(defn, bname)
+            pq = [i for i, f in enumerate(defn.fields) if f.pq is not None and f.bits is not None and f.type in refdb.NUMERIC]
+            toks = {}
+            for i in pq:
+                f = defn.fields[i]
+                rr = f.raw_range()
+                t = [f.sentinel(), 0]
+                if rr:
+                    t += [rr[0] & ((1 << f.bits) - 1), rr[1] & ((1 << f.bits) - 1), ((rr[0] + rr[1]) // 2) & ((1 << f.bits) - 1)]
+                toks[i] = list(dict.fromkeys(t))
+            p, n = payloads.build(defn, base)
+            if (p, n) not in seen:
+                seen.add((p, n))
+                yield None, p, n
+            for i in pq:
+                for t in toks[i]:
+                    a = list(base)
+                    a[i] = t
+                    p, n = payloads.build(defn, a)
+                    if (p, n) not in seen:
+                        seen.add((p, n))
+                        yield i, p, n
+            if bname == "mid":
+                for i, j in itertools.combinations(pq[:8], 2):
+                    for ti in toks[i][:4]:
+                        for tj in toks[j][:4]:
+                            a = list(base)
+                            a[i], a[j] = ti, tj
+                            p, n = payloads.build(defn, a)
+                            if (p, n) not in seen:
+                                seen.add((p, n))
+                                yield i, p, n
+        return
     base = payloads.base_assignment(defn, "mid")
     seen = set()
     p, n = payloads.build(defn, base)
@@ -138,7 +175,8 @@ def payload_set(defn, seed):
 
 
 def _task(args):
-    idxs, seed = args
+    idxs, seed = args[:2]
+    deep = len(args) > 2 and args[2]
     db = refdb.db()
     maps = all_maps()
     ref_dec = NMEA2000Decoder()
@@ -153,7 +191,7 @@ def _task(args):
             continue
         st["fields"] += len(pqf)
         has_conv = any(f.pq in SI for f in pqf)
-        for fi, p, n in payload_set(defn, seed):
+        for fi, p, n in payload_set(defn, seed, deep):
             ref = dec_line(ref_dec, defn.pgn, p, n)
             use = range(len(maps)) if has_conv else range(0, len(maps), 9)
             for mi in use:
@@ -228,7 +266,7 @@ def run(ctx):
     buckets = [[] for _ in range(nb)]
     for j, i in enumerate(order):
         buckets[j % nb].append(i)
-    tasks = [("fields", (b, ctx.seed)) for b in buckets if b]
+    tasks = [("fields", (b, ctx.seed, ctx.thorough)) for b in buckets if b]
     multi = sorted(db.multi, key=lambda p: -len(db.multi[p]))
     for p in multi:
         tasks.append(("order", ([p], ctx.seed)))
@@ -248,7 +286,7 @@ def run(ctx):
                 "range ends, mid and a seeded raw; maps = all 144 combinations over the four convertible quantities + case variants "
                 "+ maps naming non-convertible quantities; non-trivial = non-empty map on a definition with a convertible field",
         "samples": samples, "fields_with_physical_quantity": tot["fields"], "preference_maps": len(all_maps()),
-        "bound_completed": "one field off base at a time; all preference maps; every ordered pair of definitions sharing a PGN on one decoder", "exhaustive": True,
+        "bound_completed": ("quantity fields off base one at a time from 4 bases and two at a time from base mid" if ctx.thorough else "one field off base at a time") + "; all preference maps; every ordered pair of definitions sharing a PGN on one decoder", "exhaustive": True,
     }
     return {"coverage": cov, "violations": vios,
             "assumptions": ["a field is convertible when its database unit is the SI unit of its quantity (K, Pa, rad, m/s)",
